@@ -40,12 +40,16 @@ pub mod pt {
     pub const READ_BUF_RETURN: u32 = 4;
     /// `Buffer::write_buf` is about to return (lock released).
     pub const WRITE_BUF_RETURN: u32 = 5;
-    /// `Buffer::produce` is about to return (lock released). a = n.
+    /// `Buffer::produce` is about to return (lock released). a = n, b = stream id.
     pub const PRODUCE_RETURN: u32 = 6;
-    /// `Buffer::consume` is about to return (lock released). a = n.
+    /// `Buffer::consume` is about to return (lock released). a = n, b = stream id.
     pub const CONSUME_RETURN: u32 = 7;
     /// `ReadStream::eof` entered.
     pub const READ_EOF_ENTER: u32 = 8;
+    /// `NCWriteStream::push` done. b = stream id.
+    pub const NC_PUSH: u32 = 9;
+    /// `NCReadStream::pop` returned a packet. b = stream id.
+    pub const NC_POP: u32 = 10;
     /// MTGraph block thread: top of loop, before `work()`.
     pub const MT_LOOP_HEAD: u32 = 20;
     /// MTGraph block thread is leaving its loop.
